@@ -42,6 +42,10 @@ def gen_cases(tier, seed):
             c.pop('prehistory', None)
             k2 = len(c['spec']['statuses'])
             c['IC'] = [r.randrange(k2) for _ in range(g['n'])]
+        if sim == 'Gillespie_simple_contagion' and r.random() < 0.4 and len(c['spec']['statuses']) >= 2:
+            # only some statuses are reported (SEIR reporting S, I, R): the transmission list still has every induced change
+            k2 = len(c['spec']['statuses'])
+            c['return_idx'] = sorted(r.sample(range(k2), r.randint(1, k2 - 1)))
         out.append(c)
     return out
 
@@ -140,6 +144,8 @@ def run_case(case):
         viol(res, '%s|exception:%s' % (case['sim'], simcase.exc_key(e)), {'err': repr(e)})
         return res
     bump(res, 'runs:' + call.sim)
+    if case.get('return_idx') is not None and case['sim'] == 'Gillespie_simple_contagion' and len(case['return_idx']) < len(case['spec']['statuses']):
+        bump(res, 'runs_reporting_a_strict_subset_of_statuses')
     n_src = check_log(call, out, case, res, call.sim)
     if n_src:
         res['nontrivial'] = '%s:%s:%d' % (call.sim, gen.iso_key(case['graph']), min(n_src, 40) // 5)
